@@ -9,3 +9,9 @@ check("C13",
       text="Explicit-state search: every history of PushLine / PushLineWithEvictionWarning / Get / GetCacheLine / GetSubCacheLine / Write / EvictCacheLine over 3-5 lines (small geometries: complete reachable state space; 64B/1KB and 128B/4KB: bounded depth after a capacity-filling prefix, restricted line alphabet) and Put/Get/Find of the generic LRU (capacity 1-3, to fix-point) is executed on the real object and on an MRU-ordered list model; every edge compares return values and the whole line list. Finite-state components, so state enumeration is the natural decision procedure.",
       note="Successors are produced by replaying the shortest history on a fresh object; canonical state = MRU-ordered (base, contents) list (+ announced victim), which determines all future behaviour of both sides. Write only inside a resident line; caller never aliases line contents.",
       ref="DESIGN.md §2 C13")
+
+check("C14",
+      technique="explicit-state BFS to fix-point over the real bus/queue/broadcast APIs with a FIFO-with-stamps reference model",
+      text="Explicit-state search to a fix-point (complete reachable state space) for BufferedBus with every capacity pair 1..4 x 1..4, SimpleBus, Queue and Broadcast: every interleaving of add (only while the bus reports room) / connect / next-cycle / get / pick / revert / delete-last / clean is executed on the real object and on a FIFO model with availability stamps; each edge compares returned items, the full private state and all observers, and asserts the statement directly on what is handed out (not before cycle c+1, at most once, within capacity, reverted item next).",
+      note="Item identity is abstracted to a 1-bit tag in the canonical state (the implementation never inspects items; Pick predicates only look at the tag); absolute cycle numbers are abstracted to 'available now / next cycle'. Private state is read through accessors added by the build overlay.",
+      ref="DESIGN.md §2 C14")
